@@ -147,7 +147,7 @@ def run_case(case, rec):
     verb = dict(print_loss_every=2) if case["k"] % 2 == 1 else dict(verbose=False)
     if "verbose" not in verb:
         rec.count("runs_with_default_verbosity")
-    out = guard.call(jinns.solve, n_iter=n, init_params=params, data=data, loss=loss, optimizer=opt,
+    out = guard.call_supported(jinns.solve, n_iter=n, init_params=params, data=data, loss=loss, optimizer=opt,
                      tracked_params=tracked, **verb)
     ref = refloop.ref_loop(n, params, data, loss, opt, tracked=tracked, prime=1)
     first = min([k for _, k in faults]) if faults else None
